@@ -141,6 +141,14 @@ func (tw *timeoutWriter) Flush() {
 		return
 	}
 
+	tw.mu.Lock()
+	defer tw.mu.Unlock()
+
+	// the timeout response has been written, nothing of the handler may follow it
+	if tw.timedOut {
+		return
+	}
+
 	header := tw.w.Header()
 	for k, v := range tw.h {
 		header[k] = v
